@@ -930,10 +930,19 @@ def suite_confine(binf, tier, rng):
               ops_long += [{"op": "metadata", "fl": f2, "key": K} for f2 in fls] + [{"op": "read", "fl": f2, "key": K} for f2 in fls]
               ops_long += [{"op": "ropen", "fl": fl, "r": 1, "key": K}, {"op": "rall", "r": 1}, {"op": "exists", "fl": fl, "sri": sri}, {"op": "list"},
                            {"op": "copy", "fl": fl, "by": "key", "checked": True, "key": K, "to": "outL"}]
-          for variant, ops in (("full", ops), ("index-only", ops_idx)) + ((("long-history", ops_long),) if ops_long else ()):
+          # the cache's temp area is unusable (a regular file named tmp): writers fail, and create nothing anywhere else
+          ops_blocked = []
+          if key == keys[0] or absk:
+              ops_blocked = [{"op": "write", "fl": f2, "key": K, "data": D.hex(), "algo": "sha256"} for f2 in fls] + \
+                            [{"op": "write_hash", "fl": fl, "data": D.hex(), "algo": "sha1"},
+                             {"op": "open", "fl": "sync", "w": 1, "key": K}, {"op": "wchunk", "w": 1, "data": D.hex(), "mode": "write_all"}, {"op": "commit", "w": 1},
+                             {"op": "metadata", "fl": fl, "key": K}, {"op": "list"}]
+          for variant, ops in (("full", ops), ("index-only", ops_idx)) + ((("long-history", ops_long),) if ops_long else ()) + ((("tmp-blocked", ops_blocked),) if ops_blocked else ()):
             shutil.rmtree(base, ignore_errors=True); os.makedirs(base)
             cache, ext, cwd = os.path.join(base, "solo", "c"), os.path.join(base, "e"), os.path.join(base, "cwd")
             for d in (cache, ext, cwd): os.makedirs(d)
+            if variant == "tmp-blocked":
+                with open(os.path.join(cache, "tmp"), "wb") as f: f.write(b"not a directory")
             os.makedirs(os.path.join(ext, "dir1"))
             if absk: os.makedirs(os.path.join(base, "escape"))
             before_out = sorted(os.listdir(cwd))
